@@ -384,18 +384,47 @@ func (ctx Ctx) prophIdMethod(f *ast.SelectorExpr, args []ast.Expr) coq.CallExpr 
 	}
 }
 
+// specialPackages gives the packages whose members goose translates specially
+// the name those members are recognised under
+var specialPackages = map[string]string{
+	"fmt":                                 "fmt",
+	"log":                                 "log",
+	"sync":                                "sync",
+	"github.com/goose-lang/goose/machine": "machine",
+	"github.com/goose-lang/primitive":     "machine",
+	"github.com/goose-lang/goose/machine/disk":    "disk",
+	"github.com/goose-lang/primitive/disk":        "disk",
+	"github.com/goose-lang/goose/machine/filesys": "filesys",
+	"github.com/mit-pdos/vmvcc/cfmutex":           "cfmutex",
+}
+
+// isPkg reports whether e names an import of the special package name (a user
+// package that merely has the same name does not count, and a renamed import
+// of the real package does)
+func (ctx Ctx) isPkg(e ast.Expr, name string) bool {
+	ident, ok := e.(*ast.Ident)
+	if !ok {
+		return false
+	}
+	pkgName, ok := ctx.info.Uses[ident].(*types.PkgName)
+	if !ok {
+		return false
+	}
+	return specialPackages[pkgName.Imported().Path()] == name
+}
+
 func (ctx Ctx) packageMethod(f *ast.SelectorExpr,
 	call *ast.CallExpr) coq.Expr {
 	args := call.Args
 	// TODO: replace this with an import that has all the right definitions with
 	// names that match Go
-	if isIdent(f.X, "filesys") {
+	if ctx.isPkg(f.X, "filesys") {
 		return ctx.newCoqCall("FS."+toInitialLower(f.Sel.Name), args)
 	}
-	if isIdent(f.X, "disk") {
+	if ctx.isPkg(f.X, "disk") {
 		return ctx.newCoqCall("disk."+f.Sel.Name, args)
 	}
-	if isIdent(f.X, "machine") || isIdent(f.X, "primitive") {
+	if ctx.isPkg(f.X, "machine") {
 		switch f.Sel.Name {
 		case "UInt64Get", "UInt64Put", "UInt32Get", "UInt32Put":
 			return ctx.newCoqCall(f.Sel.Name, args)
@@ -426,7 +455,7 @@ func (ctx Ctx) packageMethod(f *ast.SelectorExpr,
 			return coq.CallExpr{}
 		}
 	}
-	if isIdent(f.X, "log") {
+	if ctx.isPkg(f.X, "log") {
 		switch f.Sel.Name {
 		case "Print", "Printf", "Println":
 			return coq.LoggingStmt{GoCall: ctx.printGo(call)}
@@ -445,13 +474,13 @@ func (ctx Ctx) packageMethod(f *ast.SelectorExpr,
 			ctx.expr(args[1]),
 			coq.UnitLiteral{})
 	}
-	if isIdent(f.X, "fmt") {
+	if ctx.isPkg(f.X, "fmt") {
 		switch f.Sel.Name {
 		case "Println", "Printf":
 			return coq.LoggingStmt{GoCall: ctx.printGo(call)}
 		}
 	}
-	if isIdent(f.X, "sync") {
+	if ctx.isPkg(f.X, "sync") {
 		switch f.Sel.Name {
 		case "NewCond":
 			return ctx.newCoqCall("lock.newCond", args)
@@ -685,13 +714,13 @@ func (ctx Ctx) makeExpr(args []ast.Expr) coq.CallExpr {
 // newExpr parses a call to new() into an appropriate allocation
 func (ctx Ctx) newExpr(ty ast.Expr) coq.CallExpr {
 	if sel, ok := ty.(*ast.SelectorExpr); ok {
-		if isIdent(sel.X, "sync") && isIdent(sel.Sel, "Mutex") {
+		if ctx.isPkg(sel.X, "sync") && isIdent(sel.Sel, "Mutex") {
 			return coq.NewCallExpr(coq.GallinaIdent("lock.new"))
 		}
-		if isIdent(sel.X, "sync") && isIdent(sel.Sel, "WaitGroup") {
+		if ctx.isPkg(sel.X, "sync") && isIdent(sel.Sel, "WaitGroup") {
 			return coq.NewCallExpr(coq.GallinaIdent("waitgroup.New"))
 		}
-		if isIdent(sel.X, "cfmutex") && isIdent(sel.Sel, "CFMutex") {
+		if ctx.isPkg(sel.X, "cfmutex") && isIdent(sel.Sel, "CFMutex") {
 			return coq.NewCallExpr(coq.GallinaIdent("lock.new"))
 		}
 	}
@@ -864,10 +893,10 @@ func (ctx Ctx) qualifiedName(obj types.Object) string {
 func (ctx Ctx) selectExpr(e *ast.SelectorExpr) coq.Expr {
 	selectorType, ok := ctx.getType(e.X)
 	if !ok {
-		if isIdent(e.X, "filesys") {
+		if ctx.isPkg(e.X, "filesys") {
 			return coq.GallinaIdent("FS." + e.Sel.Name)
 		}
-		if isIdent(e.X, "disk") {
+		if ctx.isPkg(e.X, "disk") {
 			return coq.GallinaIdent("disk." + e.Sel.Name)
 		}
 		if pkg, ok := getIdent(e.X); ok {
